@@ -14,6 +14,7 @@ import time
 import kanirun
 
 VERIF = os.path.dirname(os.path.dirname(os.path.abspath(__file__)))
+OUT = os.environ.get("VERIF_OUT", VERIF)   # where evidence/ and replays/ are written (mutation runs use a scratch dir)
 KANI_SRC = os.path.join(VERIF, "kani")
 KANI_DIR = KANI_SRC          # replaced by the run's snapshot copy in main()
 
@@ -387,7 +388,8 @@ def main(a):
             continue
         if r["status"] in ("TIMEOUT", "ERROR", "MISSING", "UNKNOWN"):
             undecided.append("%s [%s]: %s" % (h.name, r["fs"], r["status"]))
-            with open(os.path.join(VERIF, "replays", "last-error-%s-%s.log" % (pid, h.name)), "w") as f:
+            os.makedirs(os.path.join(OUT, "replays"), exist_ok=True)
+            with open(os.path.join(OUT, "replays", "last-error-%s-%s.log" % (pid, h.name)), "w") as f:
                 f.write(r["raw"][-20000:])
             continue
         # FAILED
@@ -555,8 +557,8 @@ def main(a):
         "wall_s": round(wall, 1),
         "violations": len(replay_paths),
     }
-    os.makedirs(os.path.join(VERIF, "evidence"), exist_ok=True)
-    with open(os.path.join(VERIF, "evidence", pid + ".json"), "w") as f:
+    os.makedirs(os.path.join(OUT, "evidence"), exist_ok=True)
+    with open(os.path.join(OUT, "evidence", pid + ".json"), "w") as f:
         json.dump(ev, f, indent=1)
     print("%s %s: %d harnesses, %d/%d checks discharged, %d undecided, %d violations, %.0fs" % (
         pid, a.tier, len(per_harness), n_ok, n_checks, len(undecided), len(replay_paths), wall))
